@@ -22,6 +22,8 @@ pub use crate::{
     statetable::{Action, StateTable, StateTableError, StateTableErrorKind},
 };
 #[cfg(grmtools_verif)]
+pub use crate::pager::{verif_pager_trace_enable, verif_take_pager_trace};
+#[cfg(grmtools_verif)]
 pub use crate::pager::{verif_weakly_compatible, verif_weakly_merge};
 use cfgrammar::yacc::YaccGrammar;
 
